@@ -32,7 +32,12 @@ instance : ANum Float where
   deg2rad := fun x => x * (3.141592653589793 / 180.0)
   rad2deg := fun x => x * (180.0 / 3.141592653589793)
   atan2 := Float.atan2
-  hypot := fun x y => Float.sqrt (x * x + y * y)
+  -- libm's hypot does not overflow or underflow in the squares: scale by the larger magnitude first
+  hypot := fun x y =>
+    let ax := Float.abs x
+    let ay := Float.abs y
+    let m := if ax < ay then ay else ax
+    if m == 0.0 || !m.isFinite then Float.sqrt (x * x + y * y) else m * Float.sqrt ((x / m) * (x / m) + (y / m) * (y / m))
   mod360 := fun v => if v.isFinite then v - 360.0 * Float.floor (v / 360.0) else v
   isZero := fun v => v == 0.0
 
